@@ -12,13 +12,16 @@ import (
 	"fmt"
 	"net"
 	"net/http"
+	"runtime"
 	"sort"
 	"strconv"
 	"strings"
 	"sync"
+	"sync/atomic"
 	"testing"
 	"testing/synctest"
 	"time"
+	"unsafe"
 
 	"github.com/dlintw/goconf"
 	"github.com/golang-jwt/jwt/v5"
@@ -57,18 +60,19 @@ type c01Run struct {
 	backendKV []c01KV
 	// mode etcd: the storage the hub was created with
 	startStorage BackendStorage
-	hub       *Hub
-	events    AsyncEvents
-	hubL      *c01Listener
-	backendL  *c01Listener
-	hubSrv    *http.Server
-	backSrv   *http.Server
-	lg        *c01BackendLog
-	clients   map[int]*c01Client
-	sessions  []string          // public ids in creation order (index+1 = symbol)
-	private   map[string]string // public id -> private id
-	foreign   string
-	msgId     int
+	hub          *Hub
+	events       AsyncEvents
+	hubL         *c01Listener
+	backendL     *c01Listener
+	hubSrv       *http.Server
+	backSrv      *http.Server
+	lg           *c01BackendLog
+	clients      map[int]*c01Client
+	sessions     []string          // public ids in creation order (index+1 = symbol)
+	private      map[string]string // public id -> private id
+	bySid        map[uint64]string // Hub.sessions key -> public id
+	foreign      string
+	msgId        int
 }
 
 func (r *c01Run) sym(publicId string) int {
@@ -104,7 +108,13 @@ func (r *c01Run) start() string {
 			config.AddOption("backend", "sessionlimit", l)
 		}
 	case "allowed":
-		config.AddOption("backend", "allowed", r.cfgKV.s("allowed"))
+		// the allowed hosts are those of the `backend` lines (one per host), so that a shrunk op list
+		// configures the hub and the model alike
+		var hosts []string
+		for _, b := range r.backendKV {
+			hosts = append(hosts, b.s("host"))
+		}
+		config.AddOption("backend", "allowed", strings.Join(hosts, ", "))
 		config.AddOption("backend", "secret", "compat-secret")
 		if r.cfgKV.b("aa.http") {
 			config.AddOption("backend", "allowhttp", "true")
@@ -372,6 +382,9 @@ func (r *c01Run) digest() string {
 	r.hub.mu.Unlock()
 	for _, s := range ss {
 		n := r.sym(s.PublicId())
+		if d := s.Data(); d != nil {
+			r.bySid[d.Sid] = s.PublicId()
+		}
 		conn := "-"
 		if cs, ok := s.(*ClientSession); ok {
 			if cl := cs.GetClient(); cl != nil {
@@ -381,14 +394,91 @@ func (r *c01Run) digest() string {
 		rows = append(rows, row{n, fmt.Sprintf("%d:%s:%s:%s:%s", n, vEnc(s.Backend().Id()), vEnc(s.ClientType()), vEnc(s.UserId()), conn)})
 	}
 	sort.Slice(rows, func(i, j int) bool { return rows[i].n < rows[j].n })
-	if len(rows) == 0 {
-		return "S=-"
+	out := "S=-"
+	if len(rows) > 0 {
+		var xs []string
+		for _, x := range rows {
+			xs = append(xs, x.s)
+		}
+		out = "S=" + strings.Join(xs, ",")
 	}
-	var xs []string
-	for _, x := range rows {
-		xs = append(xs, x.s)
+	return out + " ; " + r.tables(-1)
+}
+
+// tables reports the hub's two connection tables at rest:
+//
+//	K=<conn>:<session>[!],…  Hub.clients (session id -> connection); `!` = the entry's session is not (or no longer)
+//	                         the live session of that id in Hub.sessions, or the connection itself points elsewhere
+//	E=<conn>,…               Hub.expectHelloClients (connections that still have to say hello)
+//
+// `skip` (a connection number) is left out of E (the step that raced on it decides nothing about it).
+func (r *c01Run) tables(skip int) string {
+	connOf := func(cl HandlerClient) int {
+		n, err := strconv.Atoi(strings.TrimPrefix(cl.UserAgent(), "conn-"))
+		if err != nil {
+			return -1
+		}
+		return n
 	}
-	return "S=" + strings.Join(xs, ",")
+	type krow struct {
+		conn int
+		s    string
+	}
+	var ks []krow
+	var es []int
+	type kent struct {
+		sid  uint64
+		cl   HandlerClient
+		live Session
+	}
+	var ents []kent
+	r.hub.mu.Lock()
+	for sid, cl := range r.hub.clients {
+		ents = append(ents, kent{sid, cl, r.hub.sessions[sid]})
+	}
+	for cl := range r.hub.expectHelloClients {
+		if n := connOf(cl); n != skip {
+			es = append(es, n)
+		}
+	}
+	r.hub.mu.Unlock()
+	for _, e := range ents {
+		mine := e.cl.GetSession()
+		pub, bad := "", false
+		switch {
+		case e.live != nil:
+			pub = e.live.PublicId()
+			bad = mine != e.live
+		case mine != nil:
+			pub, bad = mine.PublicId(), true
+		default:
+			pub, bad = r.bySid[e.sid], true
+		}
+		row := fmt.Sprintf("%d:%d", connOf(e.cl), r.sym(pub))
+		if bad {
+			row += "!"
+		}
+		ks = append(ks, krow{connOf(e.cl), row})
+	}
+	sort.Slice(ks, func(i, j int) bool { return ks[i].s < ks[j].s })
+	sort.Slice(ks, func(i, j int) bool { return ks[i].conn < ks[j].conn })
+	sort.Ints(es)
+	k, e := "K=-", "E=-"
+	if len(ks) > 0 {
+		var xs []string
+		for _, x := range ks {
+			xs = append(xs, x.s)
+		}
+		k = "K=" + strings.Join(xs, ",")
+	}
+	if len(es) > 0 {
+		var xs []string
+		for _, x := range es {
+			xs = append(xs, strconv.Itoa(x))
+		}
+		e = "E=" + strings.Join(xs, ",")
+	}
+	return k + " ; " + e
 }
 
 // ---------- building the hello from its attributes ----------
@@ -717,7 +807,7 @@ var c01Messages = []struct{ ty, shape, text string }{
 }
 
 func (r *c01Run) attached(n int) bool {
-	for _, f := range strings.Split(strings.TrimPrefix(r.digest(), "S="), ",") {
+	for _, f := range strings.Split(strings.TrimPrefix(strings.SplitN(r.digest(), " ; ", 2)[0], "S="), ",") {
 		p := strings.Split(f, ":")
 		if len(p) == 5 && p[4] == strconv.Itoa(n) {
 			return true
@@ -782,10 +872,166 @@ func (r *c01Run) disconnect(kv c01KV) string {
 	return "done"
 }
 
+// ---------- a resume racing with the end of the session ----------
+
+// c01Waiting: goroutines queued on a sync.RWMutex that is held for writing — writers asleep on the inner
+// mutex (state >> mutexWaiterShift) plus readers that announced themselves (readerCount + rwmutexMaxReaders).
+// Layout of go1.26: w{state int32; sema uint32}; writerSem, readerSem uint32; readerCount, readerWait int32.
+func c01Waiting(mu *sync.RWMutex) int {
+	base := unsafe.Pointer(mu)
+	writers := atomic.LoadInt32((*int32)(base)) >> 3
+	readers := atomic.LoadInt32((*int32)(unsafe.Add(base, 16)))
+	if readers < 0 {
+		readers += 1 << 30
+	}
+	return int(writers) + int(readers)
+}
+
+func c01SpinUntil(cond func() bool) bool {
+	// no sleeping: the clock of the bubble is frozen and a goroutine queued on a mutex is not durably blocked
+	for i := 0; i < 3000000; i++ {
+		if cond() {
+			return true
+		}
+		runtime.Gosched()
+	}
+	return false
+}
+
+// replies lists what a connection received since the last op, in order.
+func (r *c01Run) replies(c *c01Client) string {
+	var out []string
+	for _, m := range c.take() {
+		var sm ServerMessage
+		if err := json.Unmarshal([]byte(m), &sm); err != nil {
+			out = append(out, "garbled")
+			continue
+		}
+		switch sm.Type {
+		case "hello":
+			if sm.Hello == nil {
+				out = append(out, "garbled")
+				continue
+			}
+			r.private[sm.Hello.SessionId] = sm.Hello.ResumeId
+			out = append(out, fmt.Sprintf("hello:%d", r.sym(sm.Hello.SessionId)))
+		case "error":
+			code := "?"
+			if sm.Error != nil {
+				code = sm.Error.Code
+			}
+			out = append(out, "error:"+vEnc(code))
+		default:
+			out = append(out, vEnc(sm.Type))
+		}
+	}
+	if len(out) == 0 {
+		return "none"
+	}
+	return strings.Join(out, "+")
+}
+
+// rrace c=<new connection> rid=priv:<k> end=<bye|expire> o=<connection of session k|-> first=<resume|end|free>
+//
+// Connection c sends a hello with the resume id of session k while the session ends (`bye` on the connection
+// that has it, or Session.Close() as the expiry / a kick does).  With first=resume|end the harness holds Hub.mu
+// for writing until both are queued on it in that order (read from the mutex itself), then lets go; `free`
+// just issues both at once.  Whatever order the hub takes them in, at rest the tables must be those of "the
+// session has ended" — in particular no entry of Hub.clients for a session that is not in Hub.sessions — and
+// the reply to c one of: hello k (it was attached before the end), no_such_session (after), nothing.
+func (r *c01Run) rrace(kv c01KV) (string, string) {
+	n, _ := strconv.Atoi(kv.raw("c"))
+	c := r.clients[n]
+	rid := kv.raw("rid")
+	var sess *ClientSession
+	k := 0
+	if strings.HasPrefix(rid, "priv:") {
+		k, _ = strconv.Atoi(rid[5:])
+	}
+	if k >= 1 && k <= len(r.sessions) {
+		sess, _ = r.hub.GetSessionByPublicId(r.sessions[k-1]).(*ClientSession)
+	}
+	if c == nil || c.isClosed() || r.attached(n) || sess == nil {
+		return "skip", ""
+	}
+	var old *c01Client
+	holder := -1
+	if cl := sess.GetClient(); cl != nil {
+		holder, _ = strconv.Atoi(strings.TrimPrefix(cl.UserAgent(), "conn-"))
+	}
+	switch kv.raw("end") {
+	case "bye":
+		o, _ := strconv.Atoi(kv.raw("o"))
+		old = r.clients[o]
+		if old == nil || old.isClosed() || holder != o || o == n {
+			return "skip", ""
+		}
+	case "expire":
+		if holder != -1 {
+			return "skip", ""
+		}
+	default:
+		return "bad-op", ""
+	}
+	id := r.private[r.sessions[k-1]]
+	_, err := r.hub.cookie.DecodePrivate(id)
+	oracle := "dec=" + c01B(err == nil && id != "")
+
+	r.msgId++
+	data, _ := json.Marshal(map[string]interface{}{"id": strconv.Itoa(r.msgId), "type": "hello",
+		"hello": map[string]interface{}{"version": "1.0", "resumeid": id}})
+	resume := func() { c.conn.WriteMessage(websocket.TextMessage, data) } // nolint
+	var wg sync.WaitGroup
+	end := func() {
+		if old != nil {
+			old.conn.WriteMessage(websocket.TextMessage, []byte(`{"id":"b","type":"bye","bye":{}}`)) // nolint
+			return
+		}
+		wg.Add(1)
+		go func() {
+			defer wg.Done()
+			sess.Close()
+		}()
+	}
+	mu := &r.hub.mu
+	queued := true
+	switch kv.raw("first") {
+	case "resume", "end":
+		mu.Lock()
+		one, two := resume, end
+		if kv.raw("first") == "end" {
+			one, two = end, resume
+		}
+		one()
+		ok1 := c01SpinUntil(func() bool { return c01Waiting(mu) >= 1 })
+		two()
+		ok2 := c01SpinUntil(func() bool { return c01Waiting(mu) >= 2 })
+		mu.Unlock()
+		queued = ok1 && ok2 // a throttled resume, for one, never comes to the hub's mutex
+	default:
+		wg.Add(1)
+		go func() {
+			defer wg.Done()
+			resume()
+		}()
+		end()
+	}
+	wg.Wait()
+	synctest.Wait()
+	if old != nil {
+		// the connection that said bye is closed by its owner, whatever the server did with it
+		old.conn.Close()
+		synctest.Wait()
+		<-old.done
+		synctest.Wait()
+	}
+	return r.replies(c), oracle + " queued=" + c01B(queued)
+}
+
 func vC01Exec(t *testing.T, c *vCase) {
 	c01InitKeys()
 	synctest.Test(t, func(t *testing.T) {
-		r := &c01Run{clients: map[int]*c01Client{}, private: map[string]string{}, cfgKV: c01KV{}}
+		r := &c01Run{clients: map[int]*c01Client{}, private: map[string]string{}, bySid: map[uint64]string{}, cfgKV: c01KV{}}
 		defer r.stop()
 		t0 := time.Now()
 		for _, line := range c.Ops {
@@ -822,6 +1068,7 @@ func vC01Exec(t *testing.T, c *vCase) {
 					break
 				}
 				oracle := ""
+				skipE := -1
 				switch f[0] {
 				case "connect":
 					n, _ := strconv.Atoi(kv.raw("c"))
@@ -834,6 +1081,11 @@ func vC01Exec(t *testing.T, c *vCase) {
 					out = r.msg(kv)
 				case "bye":
 					out = r.bye(kv)
+				case "rrace":
+					out, oracle = r.rrace(kv)
+					if out != "skip" && out != "bad-op" {
+						skipE, _ = strconv.Atoi(kv.raw("c"))
+					}
 				default:
 					out = "bad-op"
 				}
@@ -844,7 +1096,11 @@ func vC01Exec(t *testing.T, c *vCase) {
 						// the case is meant to run at one instant of the virtual clock
 						out += " CLOCK-MOVED"
 					}
-					out = out + " ; " + r.digest()
+					d := r.digest()
+					if skipE >= 0 {
+						d = strings.SplitN(d, " ; ", 2)[0] + " ; " + r.tables(skipE)
+					}
+					out = out + " ; " + d
 					if oracle != "" {
 						out += " || " + oracle
 					}
